@@ -139,6 +139,12 @@ func runC16(c *core.Ctx) {
 	// ---- TWCC chunks ----
 	c.Exhaustive("RunLengthChunk: all 2^15 canonical words and all (symbol, run length) tuples; StatusVectorChunk: all 2^15 words and all symbol lists", 4<<15)
 	c.Section("twcc-chunks", 1<<7, func(cs *core.Case) {
+		// one StatusVectorChunk variable decoded into again and again; the previous result is kept
+		// by value (as a caller appending chunks to a list does) and must stay what it was
+		var reuse, kept rtcp.StatusVectorChunk
+		var keptSyms []uint16
+		var keptWord uint16
+		haveKept := false
 		for lo := uint16(0); lo < 1<<8; lo++ {
 			w := uint16(cs.Idx)<<8 | lo // 15-bit payload
 			// run-length: canonical word has T=0
@@ -195,6 +201,19 @@ func runC16(c *core.Ctx) {
 				cs.Fail("vector/reencode", core.W{"word": fmt.Sprintf("%04x", vw), "reencoded": mon.Hex(vo, 4), "error": errStr(verr)})
 				return
 			}
+			if err := reuse.Unmarshal(vb); err != nil || reuse.Type != sv.Type || reuse.SymbolSize != sv.SymbolSize || !mon.SemEqual(reuse.SymbolList, sv.SymbolList) {
+				cs.Fail("vector/depends-on-receiver", core.W{"word": fmt.Sprintf("%04x", vw), "fresh": vdump(sv), "into_used_receiver": vdump(reuse), "error": errStr(err)})
+				return
+			}
+			if haveKept {
+				ko, kerr := kept.Marshal()
+				if kerr != nil || len(ko) != 2 || uint16(ko[0])<<8|uint16(ko[1]) != keptWord || !mon.SemEqual(kept.SymbolList, keptSyms) {
+					cs.Fail("vector/kept-result-changed", core.W{"kept_word": fmt.Sprintf("%04x", keptWord), "next_word_decoded_into_same_variable": fmt.Sprintf("%04x", vw),
+						"kept_symbols_then": keptSyms, "kept_symbols_now": kept.SymbolList, "kept_reencodes_to": mon.Hex(ko, 4), "error": errStr(kerr)})
+					return
+				}
+			}
+			kept, keptSyms, keptWord, haveKept = reuse, append([]uint16(nil), reuse.SymbolList...), vw, true
 			// value -> octets -> value with a freshly built list
 			fresh := rtcp.StatusVectorChunk{Type: 1, SymbolSize: sv.SymbolSize, SymbolList: append([]uint16(nil), sv.SymbolList...)}
 			fo, ferr := fresh.Marshal()
